@@ -1,7 +1,7 @@
 (** FragStages: the theorem of FragProofs.v specialised to sub-grammars, each usable on its own:
     (a) unbranched chains of organic atoms and bonds, (b) + branches, (c) + ring-bond markers,
     (d) + bracket atoms with annotations and slash marks (all atomistic fragments), (e) coarse
-    fragments.  Without ring markers the only defect class left is the order-0 symbol. *)
+    fragments.  None of them contains a multiplier, so nothing is excluded. *)
 From Coq Require Import String.
 From Coq Require Import List Ascii ZArith Bool Lia.
 From CGV Require Import Base.PyBase Base.PyVal Dialect.DialectImpl Frag.NDict Frag.StripImpl Frag.FragText Frag.FragProofs.
@@ -38,76 +38,31 @@ Proof.
   apply andb_prop in H. destruct H as [H1 H2]. specialize (IH H2). unfold has_mult in *. cbn [existsb]. rewrite IH, orb_false_r.
   destruct i as [d|t|d]; try reflexivity. destruct t; try reflexivity. rewrite NP in H1. discriminate H1.
 Qed.
-Lemma no_ring_no_stale P : (forall b m, P (TRing b m) = false) -> forall items z depth cur,
-  item_toks_in P items = true -> wf_items z depth items = true -> (cur = true -> z = ZBond) ->
-  stale_ring cur items = false.
+(** without multipliers nothing is excluded *)
+Lemma stage_any fo P toks dc :
+  (forall n, P (TMult n) = false) -> forallb P toks = true -> wf toks dc = true ->
+  strip_bonding_descriptors fo (render (decorate toks dc)) = strip_spec fo toks dc.
 Proof.
-  intros NP. induction items as [|i r IH]; intros z depth cur H W C; [reflexivity|].
-  unfold item_toks_in in H. cbn [forallb] in H. apply andb_prop in H. destruct H as [H1 H2].
-  assert (CF : z <> ZBond -> cur = false) by (intros N; destruct cur; [exfalso; apply N; auto|reflexivity]).
-  destruct i as [d|t|d]; cbn [wf_items] in W; cbn [stale_ring].
-  - destruct z; try discriminate W. apply andb_prop in W. destruct W as [_ W].
-    rewrite (CF ltac:(discriminate)). apply (IH ZStart depth false H2 W). discriminate.
-  - apply andb_prop in W. destruct W as [_ W].
-    destruct t as [e|body annot|b| | |b m|f|n].
-    + apply (IH ZAtom depth false H2 W). discriminate.
-    + apply (IH ZAtom depth false H2 W). discriminate.
-    + destruct z; try discriminate W; apply (IH ZBond depth _ H2 W); reflexivity.
-    + apply andb_prop in W. destruct W as [Wz W]. destruct z; try discriminate Wz.
-      rewrite (CF ltac:(discriminate)). apply (IH ZOpen _ false H2 W). discriminate.
-    + apply andb_prop in W. destruct W as [Wz W]. destruct z; try discriminate Wz.
-      destruct depth; [discriminate W|]. rewrite (CF ltac:(discriminate)). apply (IH ZAtom _ false H2 W). discriminate.
-    + rewrite NP in H1. discriminate H1.
-    + destruct z; try discriminate W; rewrite (CF ltac:(discriminate)); apply (IH ZBond depth false H2 W); reflexivity.
-    + apply andb_prop in W. destruct W as [Wz W]. destruct z; try discriminate Wz.
-      rewrite (CF ltac:(discriminate)). apply (IH ZAtom _ false H2 W). discriminate.
-  - apply andb_prop in W. destruct W as [W Wr]. apply andb_prop in W. destruct W as [Wz _]. destruct z; try discriminate Wz.
-    rewrite (CF ltac:(discriminate)). cbn [orb].
-    destruct (d_sym d); apply (IH ZAtom depth false H2 Wr); discriminate.
+  intros NM H W. apply strip_correct; [assumption|].
+  unfold excluded, excluded_items, class_of.
+  rewrite (no_mult P NM _ (decorate_in P toks dc H)). reflexivity.
 Qed.
 
-(** without ring markers and multipliers: only the order-0 symbol is excluded *)
-Lemma stage_no_ring fo P toks dc :
-  (forall n, P (TMult n) = false) -> (forall b m, P (TRing b m) = false) ->
-  forallb P toks = true -> wf toks dc = true -> nonlead_zero (decorate toks dc) = false ->
+Lemma strip_chains fo toks dc : forallb stage_a toks = true -> wf toks dc = true ->
   strip_bonding_descriptors fo (render (decorate toks dc)) = strip_spec fo toks dc.
-Proof.
-  intros NM NR H W NZ. apply strip_correct; [assumption|].
-  unfold excluded, excluded_items, class_of.
-  rewrite (no_mult P NM _ (decorate_in P toks dc H)), NZ.
-  unfold wf in W. apply andb_prop in W. destruct W as [_ W].
-  rewrite (no_ring_no_stale P NR _ ZStart 0 false (decorate_in P toks dc H) W); [reflexivity|discriminate].
-Qed.
-(** with ring markers, without multipliers *)
-Lemma stage_ring fo P toks dc :
-  (forall n, P (TMult n) = false) ->
-  forallb P toks = true -> wf toks dc = true -> nonlead_zero (decorate toks dc) = false ->
-  stale_ring false (decorate toks dc) = false ->
+Proof. apply (stage_any fo stage_a); reflexivity. Qed.
+Lemma strip_branches fo toks dc : forallb stage_b toks = true -> wf toks dc = true ->
   strip_bonding_descriptors fo (render (decorate toks dc)) = strip_spec fo toks dc.
-Proof.
-  intros NM H W NZ ST. apply strip_correct; [assumption|].
-  unfold excluded, excluded_items, class_of.
-  rewrite (no_mult P NM _ (decorate_in P toks dc H)), NZ, ST. reflexivity.
-Qed.
-
-Lemma strip_chains fo toks dc : forallb stage_a toks = true -> wf toks dc = true -> nonlead_zero (decorate toks dc) = false ->
+Proof. apply (stage_any fo stage_b); reflexivity. Qed.
+Lemma strip_rings fo toks dc : forallb stage_c toks = true -> wf toks dc = true ->
   strip_bonding_descriptors fo (render (decorate toks dc)) = strip_spec fo toks dc.
-Proof. apply (stage_no_ring fo stage_a); reflexivity. Qed.
-Lemma strip_branches fo toks dc : forallb stage_b toks = true -> wf toks dc = true -> nonlead_zero (decorate toks dc) = false ->
+Proof. apply (stage_any fo stage_c); reflexivity. Qed.
+Lemma strip_atomistic fo toks dc : forallb stage_d toks = true -> wf toks dc = true ->
   strip_bonding_descriptors fo (render (decorate toks dc)) = strip_spec fo toks dc.
-Proof. apply (stage_no_ring fo stage_b); reflexivity. Qed.
-Lemma strip_rings fo toks dc : forallb stage_c toks = true -> wf toks dc = true -> nonlead_zero (decorate toks dc) = false ->
-  stale_ring false (decorate toks dc) = false ->
+Proof. apply (stage_any fo stage_d); reflexivity. Qed.
+Lemma strip_coarse fo toks dc : forallb stage_e toks = true -> wf toks dc = true ->
   strip_bonding_descriptors fo (render (decorate toks dc)) = strip_spec fo toks dc.
-Proof. apply (stage_ring fo stage_c); reflexivity. Qed.
-Lemma strip_atomistic fo toks dc : forallb stage_d toks = true -> wf toks dc = true -> nonlead_zero (decorate toks dc) = false ->
-  stale_ring false (decorate toks dc) = false ->
-  strip_bonding_descriptors fo (render (decorate toks dc)) = strip_spec fo toks dc.
-Proof. apply (stage_ring fo stage_d); reflexivity. Qed.
-Lemma strip_coarse fo toks dc : forallb stage_e toks = true -> wf toks dc = true -> nonlead_zero (decorate toks dc) = false ->
-  stale_ring false (decorate toks dc) = false ->
-  strip_bonding_descriptors fo (render (decorate toks dc)) = strip_spec fo toks dc.
-Proof. apply (stage_ring fo stage_e); reflexivity. Qed.
+Proof. apply (stage_any fo stage_e); reflexivity. Qed.
 
 (** non-vacuity: one input per stage inside its domain and outside the defect classes *)
 Definition mkd' (k : ascii) (l : pystr) (s : option bsym) : desc := {| d_kind := k; d_label := l; d_sym := s |}.
@@ -119,9 +74,9 @@ Definition ex_a_dc := {| d_lead := [mkd' "$" [] (Some BDouble)]; d_after := [[mk
 Definition ex_b_toks := [C'; TOpen; C'; TClose; TBond BDouble; C'; C'; TOpen; TBond BDouble; TAtom (S "O"); TClose].
 Definition ex_b_dc := {| d_lead := []; d_after := [[]; []; [mkd' "$" (S "1") None]; [mkd' "$" (S "2") None]; []; []; []; []; []; [];
                                                   [mkd' "!" [] (Some BTriple)]] |}.
-(** C1[$]C=%12=[>]CC1%12[<] *)
+(** C1[$]C=%12[>]CC1.[!]%12[<] : a descriptor without symbol after a ring marker with symbol, an order-0 symbol *)
 Definition ex_c_toks := [C'; TRing None (S "1"); C'; TRing (Some BDouble) (S "%12"); C'; C'; TRing None (S "1"); TRing None (S "%12")].
-Definition ex_c_dc := {| d_lead := []; d_after := [[]; [mkd' "$" [] None]; []; [mkd' ">" [] (Some BDouble)]; []; []; []; [mkd' "<" [] None]] |}.
+Definition ex_c_dc := {| d_lead := []; d_after := [[]; [mkd' "$" [] None]; []; [mkd' ">" [] None]; []; []; [mkd' "!" [] (Some BZero)]; [mkd' "<" [] None]] |}.
 (** [>]F/C=C(\[Si;x=R;0.5][$])[NH3+]=[<] *)
 Definition ex_d_toks := [TAtom (S "F"); TSlash true; C'; TBond BDouble; C'; TOpen; TSlash false; TBracket (S "Si") (Some (S "x=R")); TClose;
                          TBracket (S "NH3+") None].
